@@ -415,7 +415,9 @@ type vC20Policy struct {
 var vC20Policies = []vC20Policy{
 	{"prefix", func(*rand.Rand) func(int, vjds.Entry) bool { return nil }}, // every write of the journal prefix survives
 	{"none", func(*rand.Rand) func(int, vjds.Entry) bool { return func(int, vjds.Entry) bool { return false } }},
-	{"half", func(r *rand.Rand) func(int, vjds.Entry) bool { return func(int, vjds.Entry) bool { return r.Intn(2) == 0 } }},
+	{"half", func(r *rand.Rand) func(int, vjds.Entry) bool {
+		return func(int, vjds.Entry) bool { return r.Intn(2) == 0 }
+	}},
 	{"drop-meta", func(*rand.Rand) func(int, vjds.Entry) bool {
 		return func(_ int, e vjds.Entry) bool { return !vC20IsMetaKey(e.Key) }
 	}},
@@ -766,7 +768,7 @@ func vC20RenderRes(p *vC20Pool, op vC20Op, r vC20Res) string {
 
 func TestVerif_C20_model(t *testing.T) {
 	vh.Run(t, vh.Spec{Prop: "C20", Unit: "model", Quick: 1500, Thorough: 100000, CostMs: 3,
-		Rule: "PRNG histories of 6-25 Put (1-6 keys, stored and new, 1 call in 5 of 40% of the histories carries a key twice) / Get / ContainsPrefix / CountKeysUpTo (prefix lengths around prefixBits, common prefixes of stored keys, flipped last bit; limits -1..100) / Delete / Empty / Size / clean restart (Close + reopen on the same journaling store) / sequential ResetCids (0-10 CIDs) on the plain keystore and the resettable keystore in shared and factory mode, prefixBits in {0,8,16}, batchSize in {1,2,3,7}, 8-40 multihashes out of a pool with ids sharing 17+ leading bits; lock-step set model (ids recomputed as sha256 of the multihash), Size and full contents compared after every step; non-trivial = a Put of an already stored key, a prefix query longer than prefixBits whose post-filter discriminates (fewer matches than under the truncated prefix) and a restart all occurred; distinct by hash of the model-state sequence",
+		Rule:    "PRNG histories of 6-25 Put (1-6 keys, stored and new, 1 call in 5 of 40% of the histories carries a key twice) / Get / ContainsPrefix / CountKeysUpTo (prefix lengths around prefixBits, common prefixes of stored keys, flipped last bit; limits -1..100) / Delete / Empty / Size / clean restart (Close + reopen on the same journaling store) / sequential ResetCids (0-10 CIDs) on the plain keystore and the resettable keystore in shared and factory mode, prefixBits in {0,8,16}, batchSize in {1,2,3,7}, 8-40 multihashes out of a pool with ids sharing 17+ leading bits; lock-step set model (ids recomputed as sha256 of the multihash), Size and full contents compared after every step; non-trivial = a Put of an already stored key, a prefix query longer than prefixBits whose post-filter discriminates (fewer matches than under the truncated prefix) and a restart all occurred; distinct by hash of the model-state sequence",
 		Clauses: []string{"put-returns-new", "get-prefix", "contains-prefix", "count-prefix", "delete", "size", "contents", "restart-contents", "reset-contents"}},
 		func(c *vh.Case) {
 			p := vC20GetPool()
@@ -857,7 +859,7 @@ func vC20AllowedAt(recs []vC20Rec, n int, c vC20Set) (ok bool, inflight string, 
 
 func TestVerif_C20_crash(t *testing.T) {
 	vh.Run(t, vh.Spec{Prop: "C20", Unit: "crash", Quick: 150, Thorough: 5000, CostMs: 60,
-		Rule: "fault enumeration: PRNG histories of 5-25 Put/Delete/Empty/queries/clean restart/sequential ResetCids (no call with a repeated key) on the three keystore kinds are recorded in the vjds journal with the journal range of every operation; for EVERY write boundary (after each successful write, sync or destroy of any store) the datastores are reconstructed under the prefix model and under four survivor choices of the subset model (no unsynced write survives; PRNG half; only unsynced metadata writes — size key, active marker — are lost; only unsynced data writes are lost), a keystore of the same configuration is reopened on each distinct state and its contents (Get of the empty prefix) and Size are judged: acknowledged state, or between the states without/with the one in-flight operation (in-flight reset: exactly old or exactly new), Size = number of keys; at 3 sampled crash points of a case the reopened keystore then runs ResetCids + Put + clean restart and must hold exactly those keys; non-trivial = the history contains a restart and a mutating operation after it, and (resettable kinds) a reset; distinct by hash of (config, operation sequence)",
+		Rule:    "fault enumeration: PRNG histories of 5-25 Put/Delete/Empty/queries/clean restart/sequential ResetCids (no call with a repeated key) on the three keystore kinds are recorded in the vjds journal with the journal range of every operation; for EVERY write boundary (after each successful write, sync or destroy of any store) the datastores are reconstructed under the prefix model and under four survivor choices of the subset model (no unsynced write survives; PRNG half; only unsynced metadata writes — size key, active marker — are lost; only unsynced data writes are lost), a keystore of the same configuration is reopened on each distinct state and its contents (Get of the empty prefix) and Size are judged: acknowledged state, or between the states without/with the one in-flight operation (in-flight reset: exactly old or exactly new), Size = number of keys; at 3 sampled crash points of a case the reopened keystore then runs ResetCids + Put + clean restart and must hold exactly those keys; non-trivial = the history contains a restart and a mutating operation after it, and (resettable kinds) a reset; distinct by hash of (config, operation sequence)",
 		Clauses: []string{"crash-contents", "crash-size", "crash-continue"}},
 		func(c *vh.Case) {
 			p := vC20GetPool()
@@ -1069,15 +1071,25 @@ func vC20Continue(c *vh.Case, p *vC20Pool, cfg vC20Cfg, disk vC20Disk, u []strin
 // ---- unit: faults ----------------------------------------------------------------------------
 
 type vC20FaultHook struct {
-	mu    sync.Mutex
-	at    int // access index to fail (-1: none)
-	seen  int
-	fired *vjds.Entry
+	mu     sync.Mutex
+	at     int // access index to fail (-1: none)
+	seen   int
+	fired  *vjds.Entry
+	paused bool // oracle reads are neither counted nor failed
+}
+
+func (f *vC20FaultHook) pause(on bool) {
+	f.mu.Lock()
+	f.paused = on
+	f.mu.Unlock()
 }
 
 func (f *vC20FaultHook) hook(e *vjds.Entry) error {
 	f.mu.Lock()
 	defer f.mu.Unlock()
+	if f.paused {
+		return nil
+	}
 	i := f.seen
 	f.seen++
 	if i == f.at {
@@ -1116,7 +1128,7 @@ func vC20AccessClass(cfg vC20Cfg, e *vjds.Entry) string {
 
 func TestVerif_C20_faults(t *testing.T) {
 	vh.Run(t, vh.Spec{Prop: "C20", Unit: "faults", Quick: 60, Thorough: 3000, CostMs: 120,
-		Rule: "fault enumeration: a PRNG history of 4-12 operations (as in unit model, incl. clean restarts and sequential resets, no repeated key inside a call) is first run fault-free to count its datastore accesses (Get/Has/Query/Put/Delete/Batch/Commit/Sync/Close and factory create/destroy, all stores); then it is re-run once per access index with exactly that access failing (vjds hook). Oracle: a call during which no fault fired behaves exactly like the model; the call hit by the fault either returns an error — then the contents read back afterwards lie between the states without and with it (reset: exactly one of them) and become the model — or returns success, then it must have had its full effect (documented fallbacks: ignored Sync errors, size recount); afterwards Size = number of keys, no duplicates, every later call agrees with the model, and a final clean restart reproduces the contents; non-trivial = the history has >= 40 accesses incl. a restart, and faults fired in at least 5 different operation kinds; distinct by hash of (config, operations)",
+		Rule:    "fault enumeration: a PRNG history of 4-12 operations (as in unit model, incl. clean restarts and sequential resets, no repeated key inside a call) is first run fault-free to count its datastore accesses (Get/Has/Query/Put/Delete/Batch/Commit/Sync/Close and factory create/destroy, all stores); then it is re-run once per access index with exactly that access failing (vjds hook). Oracle: a call during which no fault fired behaves exactly like the model; the call hit by the fault either returns an error — then the contents read back afterwards lie between the states without and with it (reset: exactly one of them) and become the model — or returns success, then it must have had its full effect (documented fallbacks: ignored Sync errors, size recount); afterwards Size = number of keys, no duplicates, every later call agrees with the model, and a final clean restart reproduces the contents; non-trivial = the history has >= 40 accesses incl. a restart, and faults fired in at least 5 different operation kinds; distinct by hash of (config, operations)",
 		Clauses: []string{"fault-call", "fault-recover-contents", "fault-recover-size", "fault-later-calls", "fault-final-restart"}},
 		func(c *vh.Case) {
 			p := vC20GetPool()
@@ -1190,6 +1202,18 @@ func vC20FaultRun(c *vh.Case, p *vC20Pool, cfg vC20Cfg, ops []vC20Op, at int) (f
 	fail := func(clause, sigTail, format string, args ...any) {
 		e := fh.firedEntry()
 		sig := "faults/" + firedKind + "/" + vC20AccessClass(cfg, e) + "/" + sigTail
+		// root causes seen on the pinned tree get one stable signature each (see the final report of the monitor's author)
+		switch {
+		case e.Op == vjds.OpDelete && vC20IsSizeKey(e.Key) && (firedKind == "open" || firedKind == "restart"):
+			// loadSize ignores the failed deletion of the persisted size: the metadata key stays in the slot and is served as a stored key
+			sig = "faults/startup-sizekey-delete-ignored"
+		case firedKind == "reset" && e.Op == vjds.OpPut && e.Key == "/active":
+			// the failed write of the active-slot marker is only logged: the old slot is torn down although the marker still names it
+			sig = "faults/reset-marker-write-ignored"
+		case firedKind == "reset" && sigTail == "success-without-effect":
+			// opCleanup aborts the swap after a failed final drain / sync, but ResetCids has already decided to return nil
+			sig = "faults/reset-cleanup-failure-returns-nil"
+		}
 		c.FailSig(clause, sig, "config %s, access #%d failing (%s) during %s: %s\nhistory: %s", cfg, at, e.String(), firedKind, fmt.Sprintf(format, args...), vC20RenderOps(p, ops))
 	}
 	// open: a failing constructor is retried (the fault fires once)
@@ -1218,11 +1242,21 @@ func vC20FaultRun(c *vh.Case, p *vC20Pool, cfg vC20Cfg, ops []vC20Op, at int) (f
 			env.ks.Close()
 		}
 	}()
+	state := func(m vC20Set) (bool, bool, string) {
+		fh.pause(true)
+		defer fh.pause(false)
+		return vC20State(p, env.ks, m)
+	}
+	contents := func() (vC20Set, bool, error) {
+		fh.pause(true)
+		defer fh.pause(false)
+		return vC20Contents(env.ks)
+	}
 	for i, op := range ops {
 		if resync {
 			// first check after the fault: Size and contents agree with each other and with the model
 			resync = false
-			sizeOK, contOK, detail := vC20State(p, env.ks, m)
+			sizeOK, contOK, detail := state(m)
 			c.Clause("fault-recover-size")
 			c.Clause("fault-recover-contents")
 			if !contOK {
@@ -1245,7 +1279,7 @@ func vC20FaultRun(c *vh.Case, p *vC20Pool, cfg vC20Cfg, ops []vC20Op, at int) (f
 				m = after
 				sizeOK, contOK, st := true, true, ""
 				if env.ks != nil {
-					sizeOK, contOK, st = vC20State(p, env.ks, m)
+					sizeOK, contOK, st = state(m)
 				}
 				ok, detail = sizeOK && contOK, "after "+op.render(p)+": "+st
 			}
@@ -1281,7 +1315,7 @@ func vC20FaultRun(c *vh.Case, p *vC20Pool, cfg vC20Cfg, ops []vC20Op, at int) (f
 			if env.ks == nil { // cannot happen: restart succeeded
 				continue
 			}
-			sizeOK, contOK, st := vC20State(p, env.ks, m)
+			sizeOK, contOK, st := state(m)
 			c.Clause("fault-recover-size")
 			c.Clause("fault-recover-contents")
 			if !contOK {
@@ -1302,7 +1336,7 @@ func vC20FaultRun(c *vh.Case, p *vC20Pool, cfg vC20Cfg, ops []vC20Op, at int) (f
 				return true, firedKind, true
 			}
 		}
-		cont, dup, err := vC20Contents(env.ks)
+		cont, dup, err := contents()
 		if err != nil {
 			fail("fault-later-calls", "get-error", "Get after the fault: %v", err)
 			return true, firedKind, true
